@@ -96,7 +96,7 @@ Proof.
          end.
     all: apply find_some in E1 as [E1 _]; apply find_some in E2 as [E2 _].
     all: match goal with
-         | |- of_rel (bind (rewrap true (Ops.compat _ _ _ _ ?mm ?cl)) _) _ =>
+         | |- of_rel (bind (rewrap_path (Ops.compat _ _ _ _ ?mm ?cl)) _) _ =>
              assert (Hc : is_ok (compat f e m cl) = is_ok (compat f e' m' cl))
                by (apply IHc; [exact Hf | exact (inv_member _ _ _ _ _ _ (k1, m) Hwf E1) | exact (inv_member _ _ _ _ _ _ (k2, m') Hwf' E2)]);
              destruct (compat f e m cl), (compat f e' m' cl); cbn in Hc; try discriminate; cbn; auto
@@ -237,12 +237,12 @@ Proof.
         * rewrite !is_ok_forM. apply forallb_ext'. intros kv.
           pose proof (rel_alookup perm_prop (fst kv) ps ps1 ps' Hnps H H0) as Hl. unfold property in Hl.
           destruct (alookup (fst kv) ps) as [p|] eqn:E1, (alookup (fst kv) ps') as [p'|] eqn:E2; try contradiction; [|reflexivity].
-          unfold seg, rewrap. rewrite !ok_map_err, !ok_seq, !ok_map_err. inversion Hl; subst. cbn [p_type p_disabled]. f_equal.
+          unfold seg, rewrap_path. rewrite !ok_map_err, !ok_seq, !ok_map_err. inversion Hl; subst. cbn [p_type p_disabled]. f_equal.
           apply IHc; [assumption | exact (inv_prop _ _ _ _ _ (fst kv, _) Hwf (alookup_in _ _ _ E1))
                      | exact (inv_prop _ _ _ _ _ (fst kv, _) Hwf' (alookup_in _ _ _ E2))].
         * rewrite !is_ok_forM. rewrite <- (forallb_perm _ ps1 ps' H0). apply (forallb_f2 _ _ _ _ _ H).
           intros [n p] [n' p'] _ [Hk Hr]. cbn [fst snd] in *. subst n'. inversion Hr; subst. reflexivity.
-      + rewrite !ok_then_ok by reflexivity. unfold rewrap. rewrite !ok_map_err. exact HsU.
+      + rewrite !ok_then_ok by reflexivity. unfold rewrap_path. rewrite !ok_map_err. exact HsU.
     - destruct (is_str_any_map val) as [kvs|].
       + rewrite !ok_then_ok by reflexivity.
         pose proof (HOf := IHo ts ts1 ts' ik f0 i val H H0 Hwf Hwf').
